@@ -40,6 +40,8 @@ struct Case {
     generic: bool,
     /// `#[derive_ex(OpAssign, Op)]` instead of `#[derive_ex(Op, OpAssign)]`
     assign_first: bool,
+    /// the user impl comes out of a macro_rules! macro; its self type and Rhs arrive as `ty` fragments
+    via_macro: bool,
     /// uses of `Self` in the user's bounds: 0 none, 1 where-clause predicate `Self: Sized`, 2 (generic) inline
     /// bound `T: Rel<Self>` where `Rel` is implemented exactly for the base impl's own Self type
     self_where: usize,
@@ -56,7 +58,14 @@ fn gen(ch: &mut Ch, thorough: bool) -> Option<Case> {
     if assign_first && req != 2 {
         return None;
     }
+    let via_macro = ch.flag();
+    if via_macro && (!matches!(base, Base::Binary(..)) || !matches!(rhs, RhsTy::SameExplicit | RhsTy::Other) || generic) {
+        return None;
+    }
     let self_where = ch.pick(4);
+    if via_macro && self_where != 0 {
+        return None;
+    }
     if self_where == 2 && !generic {
         return None;
     }
@@ -97,14 +106,14 @@ fn gen(ch: &mut Ch, thorough: bool) -> Option<Case> {
         if full && op == 8 && generic {
             return None;
         }
-        if !full && self_where != 0 {
+        if !full && (self_where != 0 || via_macro) {
             return None;
         }
         if op == 8 && rhs == RhsTy::OtherLt {
             return None;
         }
     }
-    Some(Case { vector: ch.vector(), op, base, rhs, want_binary, want_assign, generic, assign_first, self_where })
+    Some(Case { vector: ch.vector(), op, base, rhs, want_binary, want_assign, generic, assign_first, via_macro, self_where })
 }
 
 fn build(c: &Case, tier: &str) -> XCase {
@@ -172,7 +181,9 @@ fn build(c: &Case, tier: &str) -> XCase {
     if c.assign_first {
         list.reverse();
     }
-    s.push_str(&format!("#[derive_ex({})]\n", list.join(", ")));
+    if !c.via_macro {
+        s.push_str(&format!("#[derive_ex({})]\n", list.join(", ")));
+    }
     match c.base {
         Base::Binary(bl, br) => {
             let lt = if bl { format!("&{a_ty}") } else { a_ty.clone() };
@@ -184,7 +195,10 @@ fn build(c: &Case, tier: &str) -> XCase {
             };
             let rt = if has_lt { format!("&'a {b_ty}") } else { format!("{}{}", if br { "&" } else { "" }, b_ty) };
             let out_ty = if !bl && c.rhs == RhsTy::SameAsSelfKw { "Self".to_string() } else { a_ty.clone() };
-            s.push_str(&format!("impl{gi} ::core::ops::{tr}{rt_written} for {lt}{wh} {{\n    type Output = {out_ty};\n    fn {f}(self, rhs: {rt}) -> {a_ty} {{ dxrt::log(\"base\".to_string()); A(format!(\"({{}}{sym}{{}})\", self.0, rhs.0), PhantomData) }}\n}}\n"));
+            if c.via_macro {
+                s.push_str(&format!("macro_rules! mk_impl {{ ($t:ty, $r:ty) => {{\n#[derive_ex({})]\nimpl{gi} ::core::ops::{tr}<$r> for $t{wh} {{\n    type Output = {out_ty};\n    fn {f}(self, rhs: $r) -> {a_ty} {{ dxrt::log(\"base\".to_string()); A(format!(\"({{}}{sym}{{}})\", self.0, rhs.0), PhantomData) }}\n}}\n}} }}\nmk_impl!({lt}, {rt});\n", list.join(", ")));
+            } else
+            { s.push_str(&format!("impl{gi} ::core::ops::{tr}{rt_written} for {lt}{wh} {{\n    type Output = {out_ty};\n    fn {f}(self, rhs: {rt}) -> {a_ty} {{ dxrt::log(\"base\".to_string()); A(format!(\"({{}}{sym}{{}})\", self.0, rhs.0), PhantomData) }}\n}}\n")); }
         }
         Base::Assign(br) => {
             let rt_written = match c.rhs {
@@ -285,7 +299,8 @@ fn build(c: &Case, tier: &str) -> XCase {
     atoms.insert(format!("requested={}", list.join("+")));
     atoms.insert(format!("generic={}", c.generic));
     atoms.insert(format!("self_in_where={}", c.self_where));
-    let desc = format!("derive_ex({}) on user impl base {:?} rhs {:?}{}", list.join(", "), c.base, c.rhs, if c.generic { " generic" } else { "" }).to_string() + ["", " where Self: Sized", " T: Rel<Self>", " where for<'b> Self: Hr<'b>"][c.self_where];
+    atoms.insert(format!("via_macro={}", c.via_macro));
+    let desc = format!("derive_ex({}) on user impl base {:?} rhs {:?}{}", list.join(", "), c.base, c.rhs, if c.generic { " generic" } else { "" }).to_string() + if c.via_macro { " [impl generated by macro_rules!, self type and Rhs as ty fragments]" } else { "" } + ["", " where Self: Sized", " T: Rel<Self>", " where for<'b> Self: Hr<'b>"][c.self_where];
     XCase {
         text: s.clone(),
         code: s,
